@@ -37,7 +37,7 @@ KANI_VM_MAPPED = {'crate': 'kani/vm_k2', 'generate': asm_yaml.gen_kani_table, 'k
     _h('proofs::map_push_truncated', _MAP, 'one arbitrary byte, a Push opcode and 0..8 immediate bytes (every truncation)', 'thorough'),
     _h('proofs::ops_push_10', _OPS, '10-byte strings with a Push opcode at position 0 or 1', 'thorough')]}
 _JOIN = 'compute_effects: memory == old ++ children in index order, pc == max, halt == or, gas == checked sum (Err exactly on overflow)'
-KANI_VM_JOIN = {'crate': 'kani/vm_k2', 'generate': asm_yaml.gen_kani_table, 'kind': 'bounded', 'parallel': 3, 'timeout_s': 1800, 'mem_gb': 20, 'harnesses': [
+KANI_VM_JOIN = {'crate': 'kani/vm_k2', 'generate': asm_yaml.gen_kani_table, 'kind': 'bounded', 'parallel': 3, 'timeout_s': 3600, 'mem_gb': 20, 'harnesses': [
     _h('join::join_1_2_1', _JOIN, 'parent memory 1 word, two children with 2 and 1 words; contents, gas, pcs, halt flags symbolic'),
     _h('join::join_0_1_0_2', _JOIN, 'empty parent memory, three children with 1, 0 and 2 words', 'thorough'),
     _h('join::join_2_0_0', _JOIN, 'parent 2 words, two children with empty memories', 'thorough')]}
@@ -142,7 +142,7 @@ PROPS = {
             'explanation': 'state-read ops: operand popping, view/contract routing, memory layout (layout_k), frame'},
     'C12': {'level': 'proof', 'verus_units': ['vm_core'], 'xrun': [XRUN_VMOPS], 'kani': [KANI_VM_OPS_ACCESS],
             'explanation': 'access ops against spec functions; crypto marshalling assumed'},
-    'C06': {'level': 'proof', 'verus_units': ['types_core', 'check_core'], 'xrun': [XRUN_CODEC, XRUN_GRAPH],
+    'C06': {'level': 'proof', 'verus_units': ['types_core', 'check_core'], 'xrun': [XRUN_CODEC, XRUN_GRAPH, XRUN_ASM],
             'explanation': 'decoders / validators / graph helpers carry no precondition on the untrusted argument; Verus discharges every index, slice, unwrap/expect, arithmetic obligation'},
     'C18': {'level': 'proof', 'verus_units': ['types_core'], 'kani': [KANI_TYPES_K1], 'xrun': [XRUN_CODEC],
             'explanation': 'decode_mutation(s) invert the spec encoders on every input; node_edges equals the documented sub-range; fixed-width conversions by complete Kani proofs'},
